@@ -3,9 +3,12 @@
 package csblob
 
 import (
+	"bytes"
+	"crypto"
 	_ "crypto/sha1"
-	_ "crypto/sha256"
+	"crypto/sha256"
 	_ "crypto/sha512"
+	"io"
 )
 
 // H11.csblob-a: parseSuper on an arbitrary blob (an embedded code signature
@@ -109,3 +112,67 @@ func VH_C11_CSRequirements() {
 		r.Format()
 	}
 }
+
+// H02.pages / H01.pages / H09.pages: code pages of a Mach-O are hashed page
+// by page when signing (hashPages) and checked page by page when verifying
+// (VerifyPages); page size scaled from 4 KiB to 4 bytes. For every code
+// length over 0..2 pages plus a partial one and every content: the slots the
+// signer computes are the per-page digests written out here, independent of
+// how the stream is split into reads; the verifier accepts exactly that code
+// and rejects it with one byte changed (symbolic position and value), with a
+// byte missing, and with a slot table that is shorter or longer than the code (pages past
+// the table would otherwise go unchecked).
+func VH_C02_CodePagesSignedAndVerified() {
+	vhAssert(defaultPageSizeLog2 == 2, "page-constant-scaled")
+	n := vhConcretize(vhInt("code-bytes", 1, 9), 10)
+	code := vhBytes("code", n)
+	chunk := vhConcretize(vhInt("read-size", 1, 3), 4)
+	slots, count, limit, err := hashPages([]crypto.Hash{crypto.SHA256}, &vhChunked{r: bytes.NewReader(code), n: chunk}, false)
+	vhAssert(err == nil && limit == int64(n) && int(count) == (n+3)/4, "every-page-counted")
+	var want []byte
+	var perPage [][]byte
+	for off := 0; off < n; off += 4 {
+		end := off + 4
+		if end > n {
+			end = n
+		}
+		d := sha256.Sum256(code[off:end])
+		want = append(want, d[:]...)
+		perPage = append(perPage, d[:])
+	}
+	vhAssert(bytes.Equal(slots[0], want), "slots-are-the-per-page-digests-whatever-the-read-sizes")
+	dir := &CodeDirectory{HashFunc: crypto.SHA256, CodeHashes: perPage}
+	dir.Header.PageSizeLog2 = 2
+	dir.Header.CodeLimit = uint32(n)
+	dir.Header.HashType = HashSHA256
+	sb := &SigBlob{Directories: []*CodeDirectory{dir}}
+	vhAssert(sb.VerifyPages(bytes.NewReader(code)) == nil, "signed-code-verifies")
+	tampered := append([]byte{}, code...)
+	pos := vhConcretize(vhInt("changed-byte", 0, n-1), 10)
+	tampered[pos] = vhU8("new-value")
+	vhAssume(tampered[pos] != code[pos])
+	vhAssert(sb.VerifyPages(bytes.NewReader(tampered)) != nil, "changed-code-byte-rejected")
+	vhAssert(sb.VerifyPages(bytes.NewReader(code[:n-1])) != nil, "truncated-code-rejected")
+	if len(perPage) > 1 {
+		short := &SigBlob{Directories: []*CodeDirectory{{HashFunc: crypto.SHA256, CodeHashes: perPage[:len(perPage)-1], Header: dir.Header}}}
+		vhAssert(short.VerifyPages(bytes.NewReader(code)) != nil, "slot-table-shorter-than-the-code-rejected")
+		long := &SigBlob{Directories: []*CodeDirectory{{HashFunc: crypto.SHA256, CodeHashes: append(append([][]byte{}, perPage...), perPage[0]), Header: dir.Header}}}
+		vhAssert(long.VerifyPages(bytes.NewReader(code)) != nil, "slot-table-longer-than-the-code-rejected")
+	}
+	vhReach("verified") // vh:require verified
+}
+
+type vhChunked struct {
+	r io.Reader
+	n int
+}
+
+func (c *vhChunked) Read(p []byte) (int, error) {
+	if len(p) > c.n {
+		p = p[:c.n]
+	}
+	return c.r.Read(p)
+}
+
+func VH_C09_CodePagesIndependentOfReads() { VH_C02_CodePagesSignedAndVerified() }
+func VH_C01_CodePagesVerify()             { VH_C02_CodePagesSignedAndVerified() }
